@@ -211,3 +211,40 @@ func zzSessionLifecycleEx(steps int, race bool) {
 	verifAssert(left == 0, "no goroutine is left behind")
 	verifCover("done")
 }
+
+// A session whose outbound dial is slow: the idle timeout and a sweep pass
+// while the dial is still in progress, then the dial completes; finally the
+// client connection ends. Whatever the sweeper did meanwhile, the socket the
+// dial produced is closed exactly once and no session is left.
+//
+//verif:harness kind=api replay=native+sched unwind=400 preempt=1 bound=one-session,dial-outlasting-timeout+sweep,one-preemption
+func ZZ_C07_SlowDial() {
+	io := &zzUDPIO{allow: map[string]bool{"t:1": true}, in: make(chan *protocol.UDPMessage, 8), dialGate: make(chan struct{})}
+	log := &zzUDPLog{}
+	m := newUDPSessionManager(io, log, zzTimeout)
+	done := make(chan struct{})
+	go func() {
+		m.Run()
+		close(done)
+	}()
+	io.curSess = 1
+	io.in <- zzDgram(1, "t:1", 0)
+	verifQuiesce()
+	verifAssert(io.dialing == 1, "the session's dial is in progress")
+	// the session idles past its timeout and a sweep while the dial hangs
+	verifAdvance(int64(zzTimeout) + int64(1500*time.Millisecond))
+	verifQuiesce()
+	io.dialGate <- struct{}{}
+	verifQuiesce()
+	if verifBool("moreTime") {
+		verifAdvance(int64(zzTimeout) + int64(1500*time.Millisecond))
+		verifQuiesce()
+	}
+	close(io.in)
+	verifQuiesce()
+	<-done
+	verifAssert(m.Count() == 0, "all sessions are gone when the connection ends")
+	verifAssert(len(io.conns) == 1, "the dial produced one socket")
+	verifAssert(io.conns[0].closes == 1, "every socket that was opened is closed exactly once - also one whose dial outlasted its session")
+	verifCover("slow-dial")
+}
